@@ -200,6 +200,8 @@ func (s *srv) setScript(items []item) {
 var (
 	servers = map[string]*srv{}
 	tmpDir  string
+	// consecutive raw UDP cases whose barrier datagram went unanswered
+	udpBarrierFails int
 )
 
 func useNetHTTPClient()  { rpchttp.RegisterTransport() }
@@ -763,9 +765,13 @@ func opRawUDP(c *c12Case, o *c12Obs) {
 			o.Note = "write: " + err.Error()
 		}
 		if d.WaitMs > 0 {
+			w := time.Duration(d.WaitMs) * time.Millisecond
+			if udpBarrierFails >= 3 {
+				w = 20 * time.Millisecond
+			}
 			select {
 			case <-got[d.From%2]:
-			case <-time.After(time.Duration(d.WaitMs) * time.Millisecond):
+			case <-time.After(w):
 			}
 		} else {
 			time.Sleep(300 * time.Microsecond)
@@ -773,13 +779,23 @@ func opRawUDP(c *c12Case, o *c12Obs) {
 	}
 	ok := false
 	if c.Barrier != "" {
-		for attempt := 0; attempt < 3 && !ok; attempt++ {
+		// a server that has stopped answering barriers altogether is not waited for at length
+		attempts, wait := 3, 1500*time.Millisecond
+		if udpBarrierFails >= 3 {
+			attempts, wait = 1, 150*time.Millisecond
+		}
+		for attempt := 0; attempt < attempts && !ok; attempt++ {
 			socks[0].Write(unhex(c.Barrier))
 			select {
 			case <-barrierSeen:
 				ok = true
-			case <-time.After(1500 * time.Millisecond):
+			case <-time.After(wait):
 			}
+		}
+		if ok {
+			udpBarrierFails = 0
+		} else {
+			udpBarrierFails++
 		}
 		o.BarrierOK = &ok
 	}
